@@ -4,7 +4,7 @@ import random
 
 from .. import core, flow, oracles_bm as ob
 
-PROOFS = ['Tsv.Proofs.C04Alg', 'Tsv.Proofs.C04Levy']
+PROOFS = ['Tsv.Proofs.C04Alg', 'Tsv.Proofs.C04Levy', 'Tsv.Proofs.C03Alg']  # C03Alg: the Levy areas of stored pieces combine by Chen
 TRUSTED = ["Lean 4.33 kernel + Mathlib", "tracer/emitter (validated each run)",
            "a linear image of i.i.d. N(0,1) variables is Gaussian with the Gram covariance (classical, not formalised)",
            "torch.randn under distinct seeds gives independent standard normals; numpy SeedSequence; 32-bit seed collisions",
@@ -17,7 +17,11 @@ def oracle(rng, tier):
     gf, gs = ob.gram_search(rng, *n)
     lf, le = ob.levy_search(rng, 20 if tier == 'quick' else 400)
     sf, ss = ob.seed_structure_search(rng, 2 if tier == 'quick' else 12)
-    return gf + lf + sf, dict(gram=gs, levy_evals=le, seed_structure=ss)
+    # a Levy area returned for a query assembled from several stored pieces (conditional mean/variance are stated per piece;
+    # the pieces must combine by Chen's relation, otherwise the assembled area has the wrong conditional mean)
+    cf, cs = ob.search_chen(rng, 6 if tier == 'quick' else 60, 40, 8,
+                            force=dict(levy=['davie', 'foster'], size=[(2, 3), (1, 2), (3, 2)]))
+    return gf + lf + sf + cf, dict(gram=gs, levy_evals=le, seed_structure=ss, levy_pieces=cs)
 
 
 def run(rep, tier, seed):
